@@ -72,6 +72,10 @@ def run(ctx):
             ctx.violation('internal-error:%s' % coord, 'planning a single-integration query fails internally: %s' % p.get('msg'),
                           {'sql': sql, 'catalog': cat}, pin=(key, p['status']))
             continue
+        if p.get('fetch_text_mismatch'):
+            ctx.violation('fetch-text-is-not-its-tree:%s' % coord, 'the text of a fetch query does not say what its tree says',
+                          {'sql': sql, 'catalog': cat, 'fetch_text': p['fetch_text_mismatch']}, pin=(key, 'text'))
+            continue
         if 'kinds' in p and (p['kinds'] != ['FetchDataframeStep'] or p['fetch_sql'][0][0].lower() != 'int1'):
             ctx.violation('not-one-fetch:%s' % coord,
                           'the query touches only integration int1 but is not planned as exactly one fetch step for it',
@@ -83,8 +87,10 @@ def run(ctx):
             p['cat'] = cat
             cases.append(p)
     ctx.cov['planning_status'] = status
-    if not cases:
+    if not cases and not ctx.violations:
         raise MachineryError('no plan could be brought into the modelled fragment')
+    if not cases:
+        return ctx.finish(exhaustive=False)
     ctx.cov['oracle_crosschecked_against_sqlite3'] = planexec.oracle_crosscheck(ctx, cases, per_case=2)
     bad, r = planexec.run_planexec(ctx, cases, sample=0 if thorough else 40, names=True)
     undec = 0
